@@ -18,7 +18,7 @@ CHECK = {
         "continuity is required bit-for-bit; step <= limit x (1+1e-12); step >= displacement x (1-1e-12); point location by the C03 oracle (no claim within 1e-6 of a surface)",
         "Urban MSC variants use a synthetic transport cross section (lambda_tr = E^2 / 20 MeV^2/cm)",
     ],
-    "bounds": {"extra_roots": "e-/e+ reaching a face with 0.005 / 0.025 MeV (tracking cut 0.02 MeV); MSC + secondary stack of capacity 2 + two primaries (e+ that stops, gamma) in both orders: annihilation at rest deferred by an allocation failure",
+    "bounds": {"extra_roots": "e-/e+ reaching a face with 0.005 / 0.025 MeV (tracking cut 0.02 MeV); MSC + secondary stack of capacity 2 + two primaries (e+ that stops, gamma) in both orders: annihilation at rest deferred by an allocation failure; e+ primary AT REST at birth (E = 0) alone and as second primary next to a 1 MeV e-; primaries exactly at the ends of the scripted tables (1e4 MeV gamma/e-/e+, 1e-3 MeV gamma); non-zero primary times (2^-31 s, 3*2^-32 s) on the dyadic, table-end, at-rest and all two-primary roots with the claims: first pre-step time of a primary == its primary time, of a secondary == its parent's post-step time at the birth point",
                "quick": {"deviations": 2}, "thorough": {"deviations": 3}},
     "parts": [
         {"name": "steps", "harness": "c01_energy", "flavour": "rel",
